@@ -29,17 +29,17 @@ class AnalyzerRecorder(object):
     rec = self
 
     def sub(module, bucket):
-      real = module.Analyzer
+      # The classes call super(Analyzer, self) through their module global, so
+      # the class object must stay in place: only its __init__ is wrapped.
+      cls = module.Analyzer
+      real_init = cls.__init__
 
-      class Recorded(real):
+      def __init__(obj, *a, **k):
+        real_init(obj, *a, **k)
+        bucket.append(obj)
 
-        def __init__(self, *a, **k):
-          real.__init__(self, *a, **k)
-          bucket.append(self)
-
-      Recorded.__name__ = real.__name__
-      rec._saved.append((module, real))
-      module.Analyzer = Recorded
+      rec._saved.append((cls, real_init))
+      cls.__init__ = __init__
 
     sub(reaching_definitions, self.rd)
     sub(liveness, self.live)
@@ -47,8 +47,8 @@ class AnalyzerRecorder(object):
     return self
 
   def __exit__(self, *a):
-    for module, real in self._saved:
-      module.Analyzer = real
+    for cls, real_init in self._saved:
+      cls.__init__ = real_init
     self._saved = []
 
 
